@@ -49,19 +49,23 @@ func init() {
 			e.trust("time.Unix(sec,nsec) = epoch + sec*1e9 + nsec on 128-bit instants")
 			sec := Resize(a[0].(*Term), 128, true)
 			ns := Resize(a[1].(*Term), 128, true)
-			t := BVAdd(BVMul(BVAdd(sec, BVLitI(unixEpochSec, 128)), BVLitI(1000000000, 128)), ns)
-			return e.vc.Define("tm", t), true
+			t := e.vc.Define("tm", BVAdd(BVMul(BVAdd(sec, BVLitI(unixEpochSec, 128)), BVLitI(1000000000, 128)), ns))
+			if nsT := a[1].(*Term); nsT.IsLit() && nsT.Lit.Sign() == 0 {
+				e.vc.Assume(True, Eq(App("timeunix", BV(64), t), a[0].(*Term)))
+			}
+			return t, true
 		},
 		"(time.Time).Unix": func(e *Exec, c *ssa.CallCommon, a []Val, in ssa.Instruction) (Val, bool) {
-			e.trust("time.Time.Unix() = instant/1e9 - epoch (truncating)")
-			t := a[0].(*Term)
-			s := BVSub(bvBin("bvsdiv", t, BVLitI(1000000000, 128)), BVLitI(unixEpochSec, 128))
-			return e.vc.Define("unix", Resize(s, 64, true)), true
+			e.trust("time.Time.Unix() is the uninterpreted function timeunix(instant), with timeunix(time.Unix(s, 0)) = s")
+			return App("timeunix", BV(64), a[0].(*Term)), true
 		},
 		"(time.Time).Nanosecond": func(e *Exec, c *ssa.CallCommon, a []Val, in ssa.Instruction) (Val, bool) {
 			r := e.vc.Fresh("nsec", BV(64))
 			e.vc.Assume(True, And(SGe(r, bv64zero), SLt(r, BVLitI(1000000000, 64))))
 			return r, true
+		},
+		"(time.Duration).Nanoseconds": func(e *Exec, c *ssa.CallCommon, a []Val, in ssa.Instruction) (Val, bool) {
+			return a[0], true
 		},
 		"bytes.Equal":        modelBytesEqual,
 		"crypto/hmac.Equal":  modelBytesEqual,
@@ -196,10 +200,13 @@ func modelNow(e *Exec, c *ssa.CallCommon, a []Val, in ssa.Instruction) (Val, boo
 	lo := BVMul(BVLitI(unixEpochSec, 128), BVLitI(1000000000, 128))
 	hi := BVMul(BVLitI(unixEpochSec+253402300800, 128), BVLitI(1000000000, 128))
 	e.vc.Assume(True, And(SGe(t, lo), SLe(t, hi)))
-	if n := len(e.root.nows); n > 0 {
-		e.vc.Assume(True, SGe(t, e.root.nows[n-1]))
+	if e.root.lastNow != nil {
+		e.vc.Assume(True, SGe(t, e.root.lastNow))
 	}
-	if !e.silent {
+	e.root.lastNow = t
+	// now#k in contracts numbers the readings of the function's own body and those exposed by callee
+	// contracts, not the ones inside inlined helpers (e.g. the timestamp of an error value)
+	if (!e.silent || c == nil) && len(e.inlineStack) == 0 {
 		e.root.nows = append(e.root.nows, t)
 	}
 	return t, true
